@@ -229,6 +229,27 @@ static bool case_c12(const Plan& pl, Stats& st, Violation& v) {
   std::string d = cmp_runs(a, b, false);
   if (!d.empty()) { v.cls = "twin-mismatch"; v.sig = v.cls; v.detail = "the same history executed twice (different heap addresses / garbage" + std::string(c2.nothrow_fail_all ? " / failing nothrow requests" : "") + ") gave different results: " + d; v.plan = pl; return true; }
   if (a.leaked != 0) { v.cls = "leak"; v.sig = v.cls; v.detail = "blocks still live after the history's objects were destroyed"; v.plan = pl; return true; }
+  // fault histories: one operation ends with an exception (an allocation fails, or the caller's own callback throws); the
+  // object is then only cleared or destroyed, and whatever the history does with it after Clear() must again equal a
+  // fresh object. The fault is resolved modulo the operation's allocation / callback count (the plan stays valid when shrunk).
+  if (!pl.faults.empty()) {
+    const Fault& f0 = pl.faults[0];
+    const OpResult* r0 = find_res(a, f0.op);
+    int64_t n = r0 ? (f0.kind == 2 ? r0->cbs : r0->allocs) : 0;
+    if (n > 0 && (f0.kind == 0 || f0.kind == 2)) {
+      sim_status_run(g_cur_run, 4, (uint64_t)f0.op, (uint64_t)(f0.alloc % n));
+      RunCtl c3; c3.env = pl.env; c3.model = 3; c3.fault = f0; c3.fault.alloc = f0.alloc % n;
+      RunOut fr; exec_seq(pl, c3, fr); ++st.evals; st.steps += fr.steps;
+      if (fr.fault_fired) { ++st.fault_runs; ++st.by_kind[pl.ops[(size_t)f0.op].kind]; }
+      bool foundf = false;
+      for_each_res(fr, [&](const OpResult& o) {
+        if (o.compared) { ++st.compared; if (o.nontrivial) { ++st.nontrivial; st.keys.insert(tag64((o.shape + "|after-exception").c_str())); } }
+        if (!foundf && !o.vclass.empty()) { foundf = true; v.cls = o.vclass; v.sig = o.vclass + " " + o.sig + " after-exception"; v.detail = "after an exception had escaped from op " + std::to_string(f0.op) + " (" + pl.ops[(size_t)f0.op].kind + (f0.kind == 2 ? ", thrown by the caller's callback" : ", std::bad_alloc") + ") and the object had been cleared: op " + std::to_string(o.op) + " (" + pl.ops[(size_t)o.op].kind + "): " + o.detail; v.plan = pl; }
+        if (!foundf && o.outcome == 3) { foundf = true; v.cls = "unexpected-exception"; v.sig = v.cls + " after-exception"; v.detail = o.detail; v.plan = pl; }
+      });
+      if (foundf) { v.plan.faults.clear(); Fault fx = f0; fx.alloc = f0.alloc % n; v.plan.faults.push_back(fx); return true; }
+    }
+  }
   return false;
 }
 
